@@ -226,12 +226,13 @@ def i4(ctx, rid):
     if ff is None:
         raise core.AnchorLost('Blob::from_file')
     handlers = []
-    for c in ff.calls:
-        if c.name == 'or_else' and c.path.startswith('std::result::Result'):
-            for a in c.args:
-                l = op_local(a)
-                if l is not None and ff.locals[l].get('h') == 'closure':
-                    handlers.append(prog.fns[ff.locals[l]['a'][0]])
+    for fb in open_path_bodies(prog):
+        for c in fb.calls:
+            if c.name == 'or_else' and c.path.startswith('std::result::Result'):
+                for a in c.args:
+                    l = op_local(a)
+                    if l is not None and fb.locals[l].get('h') == 'closure':
+                        handlers.append(prog.fns[fb.locals[l]['a'][0]])
     if not handlers:
         raise core.AnchorLost('index open-failure handler in Blob::from_file')
     for h in handlers:
@@ -250,45 +251,58 @@ def i4(ctx, rid):
             ctx.bad(rid, k2, h.where(), 'the index open-failure handler can yield an index that is not a fresh in-memory one')
 
 
+def _extent_checked(f):
+    """f compares File::size() (by equality) with an expression over records_count and record_header_size, and one edge of that
+    comparison only reaches error returns"""
+    sizes = [c for c in f.calls if c.name == 'size' and 'File' in c.path]
+    for c in sizes:
+        carry = core.flows_forward(f, c.dest[0])
+        for i, b in enumerate(f.blocks):
+            if b['c'] or i not in f.reachable():
+                continue
+            for s in b['s']:
+                if s['k'] == 'a' and s['r']['k'] == 'bin' and s['r']['op'] in ('Eq', 'Ne') and any(op_local(o) in carry for o in (s['r']['a'], s['r']['b'])):
+                    other = s['r']['b'] if op_local(s['r']['a']) in carry else s['r']['a']
+                    ogs = core.origins(f, other, stop_fields=True)
+                    flds = {o.data[1] for o in ogs if o.kind == 'field'}
+                    deep = []
+                    for o in ogs:
+                        if o.kind == 'binop':
+                            for x in (o.data['a'], o.data['b']):
+                                deep += core.origins(f, x, stop_fields=True)
+                    for _ in range(3):
+                        more = []
+                        for o in deep:
+                            if o.kind == 'binop':
+                                for x in (o.data['a'], o.data['b']):
+                                    more += core.origins(f, x, stop_fields=True)
+                        deep += more
+                    flds |= {o.data[1] for o in deep if o.kind == 'field'}
+                    if 'records_count' in flds and 'record_header_size' in flds:
+                        carry2 = core.flows_forward(f, s['d'][0])
+                        for j in f.reachable():
+                            t = f.blocks[j]['t']
+                            if t['k'] == 'switch' and op_local(t['o']) in carry2:
+                                tg = [x for _, x in t['vals']] + [t['otherwise']]
+                                if any(only_err_from(f, x) for x in tg):
+                                    return True
+    return False
+
+
 def i5(ctx, rid):
     prog = ctx.prog
     impls = [d for (st, d) in prog.trait_impls.get(VALIDATE, [])]
     for d in impls:
         f = prog.fns[d]
         key = 'gate-checks-extent|%s' % d
-        sizes = [c for c in f.calls if c.name == 'size' and 'File' in c.path]
-        ok = False
-        for c in sizes:
-            carry = core.flows_forward(f, c.dest[0])
-            for i, b in enumerate(f.blocks):
-                if b['c'] or i not in f.reachable():
-                    continue
-                for s in b['s']:
-                    if s['k'] == 'a' and s['r']['k'] == 'bin' and s['r']['op'] in ('Eq', 'Ne') and any(op_local(o) in carry for o in (s['r']['a'], s['r']['b'])):
-                        other = s['r']['b'] if op_local(s['r']['a']) in carry else s['r']['a']
-                        ogs = core.origins(f, other, stop_fields=True)
-                        flds = {o.data[1] for o in ogs if o.kind == 'field'}
-                        deep = []
-                        for o in ogs:
-                            if o.kind == 'binop':
-                                for x in (o.data['a'], o.data['b']):
-                                    deep += core.origins(f, x, stop_fields=True)
-                        for _ in range(3):
-                            more = []
-                            for o in deep:
-                                if o.kind == 'binop':
-                                    for x in (o.data['a'], o.data['b']):
-                                        more += core.origins(f, x, stop_fields=True)
-                            deep += more
-                        flds |= {o.data[1] for o in deep if o.kind == 'field'}
-                        if 'records_count' in flds and 'record_header_size' in flds:
-                            carry2 = core.flows_forward(f, s['d'][0])
-                            for j in f.reachable():
-                                t = f.blocks[j]['t']
-                                if t['k'] == 'switch' and op_local(t['o']) in carry2:
-                                    tg = [x for _, x in t['vals']] + [t['otherwise']]
-                                    if any(only_err_from(f, x) for x in tg):
-                                        ok = True
+        ok = _extent_checked(f)
+        if not ok:
+            # the comparison may live in a helper of the same file (`validate_file_extent`) that every ok path of the gate passes
+            helpers = {g.id for g in prog.fns.values() if g.file == f.file and g.id != f.id and g.id == prog.fns[g.id].root
+                       and not g.is_coroutine and _extent_checked(g)}
+            if helpers:
+                S = core.Summ(prog, lambda c: any(t in helpers for t in prog.resolve(c)))
+                ok = S.must(d)
         if ok:
             ctx.ok(rid, key, f.where(), 'file size compared (by equality) with the extent implied by records_count x record_header_size; mismatch is an error')
         else:
@@ -419,11 +433,31 @@ def eof_discr(prog):
     return None
 
 
+def open_path_bodies(prog, depth=2):
+    """Blob::from_file and the helpers of the same file it calls (an `open_or_create_index` extracted from it), as bodies"""
+    ff = prog.body_of('blob::core::Blob::<K>::from_file')
+    if ff is None:
+        return []
+    out, work = [ff], [(ff, depth)]
+    while work:
+        g, d = work.pop()
+        if d <= 0:
+            continue
+        for c in g.calls:
+            for t in prog.resolve(c):
+                h = prog.body_of(t) if t in prog.fns else None
+                if h is not None and h.file == ff.file and h.id not in [x.id for x in out] and prog.fns[h.id].root.startswith('blob::core::Blob::<K>::'):
+                    out.append(h)
+                    work.append((h, d - 1))
+    return out
+
+
 def propagated_io_kinds(prog):
     """(handler fn, 'ALL' | set of discriminants) : which io::ErrorKind values make the index-open error handler in Blob::from_file
     give up (return Err) instead of regenerating the index"""
+    roots = {prog.fns[b.id].root for b in open_path_bodies(prog)}
     for f in prog.fns.values():
-        if not f.id.startswith('blob::core::Blob::<K>::from_file::{closure#0}::{closure') or f.is_coroutine:
+        if f.is_coroutine or f.id == prog.fns[f.id].root or prog.fns[f.id].root not in roots or '{closure' not in f.id:
             continue
         dc = [c for c in f.calls if c.name == 'downcast_ref' and 'std::io::Error' in c.full]
         if not dc:
@@ -548,6 +582,12 @@ def i12(ctx, rid):
     c09.p8(ctx, rid)
 
 
+def i13(ctx, rid):
+    """C09.P10 instance: a full inner node of the index file fits the block the lookups read"""
+    import props.c09 as c09
+    c09.p10(ctx, rid)
+
+
 RULES = [
     Rule('C03.I1', 'State::OnDisk is built from an opened file only after validate() ok with the blob file size as operand', i1, 2),
     Rule('C03.I2', 'every index gate tests written bit, version, key size, blob size (by equality) and magic with an error edge', i2, 5),
@@ -560,5 +600,6 @@ RULES = [
     Rule('C03.I10', 'a short (empty / cut) index file is regenerated: UnexpectedEof is converted at the read, or the open-error handler does not give up on it', i10, 1),
     Rule('C03.I11', 'the bloom offset derived when an index file is opened equals the position of the bloom bytes (C10.B16 instances)', i11, 2),
     Rule('C03.I12', 'the on-disk all-versions walk hands over to the file walk unless it saw the next key (C09.P8 instance)', i12, 1),
+    Rule('C03.I13', 'a completely filled non-leaf node fits into one block for every key length (C09.P10 instance)', i13, 1),
     Rule('C03.I8', 'the index file is written in two phases: the written flag is set only after the body append completed', i8, 1),
 ]
